@@ -132,7 +132,9 @@ func StringValueFromCodeField(message proto.Message) (string, bool) {
 			if orig, ok := proto.GetExtension(value.Options(), apb.E_FhirOriginalCode).(string); ok && orig != "" {
 				return orig, true
 			}
-			return strcase.ToKebab(string(value.Name())), true
+			// LEVEL_3 -> level-3, LEVEL3 -> level3 (the convention of the JSON mapping;
+			// a kebab-case conversion would split the digit off)
+			return strings.ReplaceAll(strings.ToLower(string(value.Name())), "_", "-"), true
 		}
 		if field.Kind() == protoreflect.StringKind {
 			return reflect.Get(field).String(), true
